@@ -453,7 +453,15 @@ def run(ctx: Ctx):
             k["exc"] = ev["exc"]
         return k
 
-    ctx.validate("Trace_Clock", TRACE_CFG, evs, shard_size=8000, key_of=key_of, ntraces=ntr)
+    # shards are cut at trace boundaries only (an "init" event starts a trace; the model state is per trace)
+    shards, cur = [], []
+    for e in evs:
+        if e["op"] == "init" and len(cur) >= 8000:
+            shards.append(cur)
+            cur = []
+        cur.append(e)
+    shards.append(cur)
+    ctx.validate("Trace_Clock", TRACE_CFG, None, shards=shards, key_of=key_of, ntraces=ntr)
     hung = any(e.get("exc") == "HANG" for e in evs)
 
     # 3. TLC behaviours enforced on real threads ---------------------------------------------------
